@@ -2565,6 +2565,76 @@ fn generate_expression(
                     // Modifier removing cast
                     let ty = generate_type_id(*type_id, context)?;
                     ast::Expression::Cast(Box::new(ty), Box::new(Located::none(inner)))
+                } else if let (ir::TypeLayer::Struct(_), ir::TypeLayer::Struct(to_id)) =
+                    (input_tyl, unmod_tyl)
+                {
+                    // A struct is cast to the struct it derives from
+                    // The members of the base are the first members of the derived struct under the same names
+                    // The source is named once for each member so has to be free of side effects
+                    let no_side_effects = matches!(
+                        **expr,
+                        ir::Expression::Variable(_)
+                            | ir::Expression::MemberVariable(_, _)
+                            | ir::Expression::Global(_)
+                            | ir::Expression::ConstantVariable(_)
+                    );
+                    if !no_side_effects {
+                        return Err(GenerateError::UnsupportedCast);
+                    }
+
+                    let member_count = context.module.struct_registry[to_id.0 as usize]
+                        .members
+                        .len();
+                    let mut inits = Vec::new();
+                    for member_index in 0..member_count {
+                        let member_name = context
+                            .name_map
+                            .get_struct_member_name(context.module, to_id, member_index as u32)
+                            .to_string();
+                        // Arrays can not be initialized from another array so are built from their elements
+                        fn element_initializer(
+                            value: ast::Expression,
+                            type_id: ir::TypeId,
+                            module: &ir::Module,
+                        ) -> ast::Initializer {
+                            let unmodified_id = module.type_registry.remove_modifier(type_id);
+                            match module.type_registry.get_type_layer(unmodified_id) {
+                                ir::TypeLayer::Array(element_id, Some(length)) => {
+                                    ast::Initializer::Aggregate(
+                                        (0..length)
+                                            .map(|index| {
+                                                let element = ast::Expression::ArraySubscript(
+                                                    Box::new(Located::none(value.clone())),
+                                                    Box::new(Located::none(
+                                                        ast::Expression::Literal(
+                                                            ast::Literal::IntUnsigned32(index),
+                                                        ),
+                                                    )),
+                                                );
+                                                element_initializer(element, element_id, module)
+                                            })
+                                            .collect(),
+                                    )
+                                }
+                                _ => ast::Initializer::Expression(Located::none(value)),
+                            }
+                        }
+
+                        let member_type = context.module.struct_registry[to_id.0 as usize].members
+                            [member_index]
+                            .type_id;
+                        inits.push(element_initializer(
+                            ast::Expression::Member(
+                                Box::new(Located::none(inner.clone())),
+                                ast::ScopedIdentifier::trivial(&member_name),
+                            ),
+                            member_type,
+                            context.module,
+                        ));
+                    }
+
+                    let ty = generate_type_id(*type_id, context)?;
+                    ast::Expression::BracedInit(Box::new(ty), inits)
                 } else {
                     // Attempt to construct via aggregate parts
 
